@@ -1,6 +1,10 @@
 """C06 - catchment delineation is exactly upstream reachability on the flow grid."""
+import inspect
 import itertools
 import math
+import sys
+import time
+from pathlib import Path
 
 import numpy as np
 
@@ -91,9 +95,12 @@ def o_up_ok(row, fd, nrows, ncols, c):
 
 
 def o_river_ok(fd, nrows, ncols, start, nval, rows):
-    """rows = (cell, dist, ...): cells follow the downstream chain, distances advance by 1 / sqrt(2)."""
+    """rows = (cell, dist, ...): cells follow the downstream chain, distances advance by 1 / sqrt(2); the
+    trace stops only where the chain stops (sink / exit) or after nval cells (a chain that runs into a
+    cycle never stops: any bounded prefix is accepted)."""
     c, dist = start, 0.0
     okr = True
+    d = None
     for j, r in enumerate(rows):
         if r[0] != c or abs(r[1] - dist) > 1e-9 * max(1, dist):
             okr = False
@@ -105,7 +112,269 @@ def o_river_ok(fd, nrows, ncols, start, nval, rows):
         dr, dc = d // ncols - c // ncols, d % ncols - c % ncols
         dist += math.sqrt(2) if dr != 0 and dc != 0 else 1.0
         c = d
+    if okr and rows and len(rows) < nval and d is not None and d >= 0:
+        # stopped before nval cells although the last cell listed has a downstream cell: legitimate only
+        # when the chain never ends (cycle)
+        seen = set()
+        while c >= 0 and c not in seen:
+            seen.add(c)
+            c = o_down(fd, nrows, ncols, c)
+        if c < 0:
+            okr = False
     return okr and 1 <= len(rows) <= nval
+
+
+# ----------------------------------------------------------------------------------------------------
+# vectorised forms of the same oracle (numpy; any grid size).  Written from the ESRI table above and the
+# property text only; used for the long-chain / default-capacity classes and for reading objects again.
+
+SQRT2 = math.sqrt(2)
+# capacities documented at the pinned commit: delineate_area(..., nval=1000000) "maximum number of cells in
+# area", delineate_river(..., nval=1000000) "number of cells to go downstream".  With DEFAULT options the
+# property therefore has to hold in full on every catchment / river below this size.
+PINNED_NVAL = {"Catchment.delineate_area": 1000000, "delineate_river": 1000000}
+
+
+def v_down(fd, nrows, ncols):
+    """fd: flat int64 array.  Returns (down, diag): downstream cell of every cell (-2 sink, -1 invalid code
+    or off-grid exit) and whether the step to it is diagonal."""
+    n = nrows * ncols
+    idx = np.arange(n, dtype=np.int64)
+    r, k = idx // ncols, idx % ncols
+    dr = np.zeros(n, dtype=np.int64)
+    dc = np.zeros(n, dtype=np.int64)
+    valid = np.zeros(n, dtype=bool)
+    for code, (a, b) in ESRI.items():
+        m = fd == code
+        dr[m], dc[m], valid[m] = a, b, True
+    rr, kk = r + dr, k + dc
+    inside = valid & (rr >= 0) & (rr < nrows) & (kk >= 0) & (kk < ncols)
+    down = np.where(inside, rr * ncols + kk, -1)
+    down[fd == 0] = -2
+    return down, inside & (dr != 0) & (dc != 0)
+
+
+def v_reach(down, diag, outlet=None, inlets=()):
+    """Pointer doubling along the downstream chains, which stop at sinks / exits, at the outlet and at the
+    inlets.  Returns (root, north, ndiag, stop): the cell at which the chain of every cell stops (a cell that
+    is not a stopping cell when the chain runs into a cycle), the number of orthogonal / diagonal steps to it
+    and the mask of the stopping cells."""
+    n = len(down)
+    idx = np.arange(n, dtype=np.int64)
+    stop = down < 0
+    if len(inlets):
+        stop[np.asarray(inlets, dtype=np.int64)] = True
+    if outlet is not None:
+        stop[outlet] = True
+    jump = np.where(stop, idx, down)
+    north = (~stop & ~diag).astype(np.int64)
+    ndiag = (~stop & diag).astype(np.int64)
+    for _ in range(max(1, int(n).bit_length() + 1)):
+        j2 = jump[jump]
+        if np.array_equal(j2, jump):
+            break
+        north = north + north[jump]
+        ndiag = ndiag + ndiag[jump]
+        jump = j2
+    return jump, north, ndiag, stop
+
+
+def v_area(down, diag, outlet, inlets):
+    """(mask of the cells whose downstream chain reaches the outlet without passing through an inlet - the
+    outlet included -, outlet on a cycle, north, ndiag)."""
+    root, north, ndiag, stop = v_reach(down, diag, outlet, inlets)
+    mask = root == outlet
+    d = down[outlet]
+    cyc = bool(outlet not in set(int(x) for x in inlets) and d >= 0 and root[d] == outlet)
+    return mask, cyc, north, ndiag
+
+
+def v_up_problem(got, cells, down, indeg):
+    """got: rows reported by upstream(cells).  Returns the position of the first row that is not exactly the
+    cells draining to its cell, each once, packed, then -1 (None when all rows are right)."""
+    n = len(down)
+    got = np.asarray(got, dtype=np.int64)
+    cells = np.asarray(cells, dtype=np.int64)
+    if got.shape != (len(cells), 9):
+        return 0
+    neg = got < 0
+    bad = (neg[:, :-1] & ~neg[:, 1:]).any(axis=1) | (neg & (got != -1)).any(axis=1) | (got >= n).any(axis=1)
+    bad |= (~neg).sum(axis=1) != indeg[cells]
+    v = np.clip(got, 0, n - 1)
+    bad |= (~neg & (down[v] != cells[:, None])).any(axis=1)
+    s = np.sort(got, axis=1)
+    bad |= ((s[:, 1:] == s[:, :-1]) & (s[:, 1:] >= 0)).any(axis=1)
+    w = np.nonzero(bad)[0]
+    return int(w[0]) if len(w) else None
+
+
+def v_river_problem(down, diag, start, cap, maxlen, cells, dist):
+    """cells / dist: the trace returned by delineate_river.  It has to start at `start`, follow the
+    downstream chain cell by cell, advance by 1 / sqrt(2), hold at most maxlen cells and stop before `cap`
+    cells only where the chain stops (or anywhere when the chain runs into a cycle).  Returns None or a text."""
+    n = len(down)
+    m = len(cells)
+    if m < 1:
+        return "empty trace"
+    if maxlen is not None and m > maxlen:
+        return f"trace of {m} cells, more than the {maxlen} asked for"
+    cells = np.asarray(cells, dtype=np.int64)
+    if cells[0] != start:
+        return f"trace starts at cell {int(cells[0])}"
+    if ((cells < 0) | (cells >= n)).any():
+        j = int(np.nonzero((cells < 0) | (cells >= n))[0][0])
+        return f"row {j} of the trace is cell {int(cells[j])}, not a cell of the grid"
+    w = np.nonzero(down[cells[:-1]] != cells[1:])[0]
+    if len(w):
+        j = int(w[0])
+        return (f"row {j + 1} of the trace is cell {int(cells[j + 1])}, the downstream cell of row {j} "
+                f"(cell {int(cells[j])}) is {int(down[cells[j]])}")
+    want = np.concatenate([[0.0], np.cumsum(np.where(diag[cells[:-1]], SQRT2, 1.0))])
+    w = np.nonzero(~(np.abs(np.asarray(dist, dtype=np.float64) - want) <= 1e-9 * np.maximum(1.0, want)))[0]
+    if len(w):
+        j = int(w[0])
+        return f"distance of row {j} (cell {int(cells[j])}) = {float(dist[j])!r}, expected {float(want[j])!r}"
+    last = int(cells[-1])
+    if m < cap and down[last] >= 0:
+        # cut short: legitimate only when the chain never ends
+        root, north, ndiag, _ = v_reach(down, diag)
+        if down[root[last]] < 0:
+            return (f"trace has {m} cells and stops at cell {last} whose downstream cell is {int(down[last])}; "
+                    f"the downstream chain goes on for {int(north[last] + ndiag[last])} more cells")
+    return None
+
+
+TRANSPOSE = {code: next(c2 for c2, v2 in ESRI.items() if v2 == (dc, dr)) for code, (dr, dc) in ESRI.items()}
+
+
+def big_fd(rec):
+    """Flow direction grid (2d int64 array) of a recipe {"kind", "nrows", "ncols", ...} - deterministic, so
+    that a replay only needs the recipe: harness.props.c06.big_fd(recipe)."""
+    kind, nrows, ncols = rec["kind"], rec["nrows"], rec["ncols"]
+    if rec.get("transposed"):
+        fd = big_fd(dict(rec, transposed=False)).T      # the recipe's nrows / ncols are those of the base grid
+        out = np.zeros(fd.shape, dtype=np.int64)
+        for code, c2 in TRANSPOSE.items():
+            out[fd == code] = c2
+        out[(fd != 0) & ~np.isin(fd, CODES)] = 3
+        return np.ascontiguousarray(out)
+    fd = np.zeros((nrows, ncols), dtype=np.int64)
+    if kind == "given":
+        fd[:] = np.array(rec["flowdir"], dtype=np.int64).reshape(nrows, ncols)
+    elif kind == "line":
+        # one row / one column flowing to one of its ends; the last cell leaves the grid or is a sink
+        fd[:] = rec["code"]
+        if rec.get("end_sink"):
+            dr, dc = ESRI[rec["code"]]
+            fd[-1 if dr > 0 else 0, -1 if dc > 0 else 0] = 0
+    elif kind == "serpentine":
+        # a river meandering through every cell: even rows flow east, odd rows west, turning south at the
+        # end of the row (cutting the corner diagonally when asked)
+        fd[0::2, :] = 1
+        fd[1::2, :] = 16
+        fd[0::2, -1] = 4
+        fd[1::2, 0] = 4
+        if rec.get("diagonal_turns") and ncols > 2:
+            fd[0::2, -2] = 2
+            fd[1::2, 1] = 8
+        fd[-1, :] = 1 if nrows % 2 == 1 else 16
+        fd[-1, -1 if nrows % 2 == 1 else 0] = 0 if rec.get("end_sink", True) else (1 if nrows % 2 == 1 else 16)
+    elif kind == "zigzag":
+        # two rows; the chain alternates between them with diagonal steps only, the other cells join it
+        fd[0, 0::2] = 2
+        fd[1, 1::2] = 128
+        fd[0, 1::2] = 4
+        fd[1, 0::2] = 64
+        if ncols % 2 == 1:
+            fd[0, -1] = 0      # the chain ends in the first row: 2 would leave the grid anyway
+    elif kind == "converge":
+        # every cell drains to the corner cell (0, 0): diagonally, or west then north
+        if rec.get("diagonal"):
+            fd[:] = 32
+            fd[0, :] = 16
+            fd[:, 0] = 64
+        else:
+            fd[:] = 16
+            fd[:, 0] = 64
+        fd[0, 0] = 0 if rec.get("end_sink", True) else 64
+    elif kind == "ring":
+        # a cycle along the border (clockwise); inner cells flow west into it
+        fd[:] = 16
+        fd[0, :] = 1
+        fd[:, -1] = 4
+        fd[-1, :] = 16
+        fd[:, 0] = 64
+        fd[0, 0] = 1
+        if ncols == 1 or nrows == 1:
+            fd[:] = 0
+    elif kind == "forest":
+        # random heights; every cell flows to a randomly chosen lower neighbour (no cycle); border cells
+        # may leave the grid; a few sinks and invalid codes
+        rs = np.random.default_rng(rec["seed"])
+        h = np.full((nrows + 2, ncols + 2), np.inf)
+        h[1:-1, 1:-1] = rs.random((nrows, ncols))
+        exits = rs.random((nrows + 2, ncols + 2)) < 0.15
+        h[exits & ~np.isfinite(h)] = -1.0
+        best = np.full((nrows, ncols), -1.0)
+        for code, (dr, dc) in ESRI.items():
+            hn = h[1 + dr:1 + dr + nrows, 1 + dc:1 + dc + ncols]
+            score = np.where(hn < h[1:-1, 1:-1], rs.random((nrows, ncols)), -1.0)
+            fd[score > best] = code
+            best = np.maximum(best, score)
+        u = rs.random((nrows, ncols))
+        fd[u < 0.02] = 0
+        fd[(u >= 0.02) & (u < 0.03)] = 3
+    else:
+        raise ValueError(kind)
+    return fd
+
+
+def inlet_seq(rng, n, pool=None, kmax=3, p_repeat=0.5):
+    """A LIST of inlet cells as a caller may write the set: any order, cells possibly listed more than once."""
+    src = list(pool) if pool else list(range(n))
+    base = rng.sample(src, min(len(src), rng.randint(1, kmax)))
+    seq = list(base)
+    if rng.random() < p_repeat:
+        seq += [rng.choice(base) for _ in range(rng.randint(1, 2))]
+    rng.shuffle(seq)
+    return seq
+
+
+def read_defaults(hygrid):
+    """Default buffer sizes of the property's entry points, read from the signatures of the code under
+    check.  Returns (defaults, problems)."""
+    out, problems = {}, []
+    for name, fn in (("Catchment.delineate_area", hygrid.Catchment.delineate_area),
+                     ("delineate_river", hygrid.delineate_river)):
+        try:
+            d = inspect.signature(fn).parameters["nval"].default
+        except (KeyError, ValueError, TypeError) as e:
+            problems.append(f"{name}: no parameter nval ({e!r})")
+            continue
+        if isinstance(d, (int, np.integer)) and not isinstance(d, bool) and d >= 1:
+            out[name] = int(d)
+        else:
+            problems.append(f"{name}: default nval = {d!r}, not a positive integer")
+    return out, problems
+
+
+def load_impl():
+    """cm.use_impl(), then make sure that the compiled kernels that got imported are the ones rebuilt from
+    the tree under check (the cache directory is shared with concurrent checks of other trees and pruned by
+    them: an import that finds it gone falls back silently to a stale prebuilt extension in <tree>/src)."""
+    for attempt in range(8):
+        ext = Path(cm.use_impl()).resolve()
+        try:
+            import c_hydrodiy_gis
+            from hydrodiy.gis import grid as hygrid
+            where = Path(c_hydrodiy_gis.__file__).resolve()
+            if ext in where.parents and getattr(hygrid, "c_hydrodiy_gis", None) is c_hydrodiy_gis:
+                return hygrid
+        except ImportError:
+            pass
+        time.sleep(0.5 + attempt)
+    raise cm.BrokenTie("the extension rebuilt from the tree under check could not be imported "
+                       "(build cache pruned concurrently)")
 
 
 def make_catchment(nrows, ncols, fd):
@@ -183,7 +452,9 @@ def gen_session(rng, S):
         gi = sgrid[s]
         n = ncell[gi]
         if r < 0.55:
-            inlets = None if rng.random() < 0.6 else sorted(rng.sample(range(n), min(n, rng.randint(1, 3))))
+            u = rng.random()
+            inlets = (None if u < 0.55 else sorted(rng.sample(range(n), min(n, rng.randint(1, 3)))) if u < 0.8
+                      else inlet_seq(rng, n, kmax=3, p_repeat=0.75))
             nval = rng.choice(pool) if rng.random() < 0.9 else rng.choice([1, 2, 3])
             ops.append(["area", s, rng.choice(outs[gi]), inlets, nval])
         elif r < 0.67:
@@ -222,12 +493,19 @@ def run(ctx):
                              "process (sessions): tested only - the Coq model is a function of one call's arguments"]
     proved = cm.prove_with_kernels(ctx, ["c_upstream", "c_downstream", "c_neighbours", "c_delineate_river",
                                          "c_delineate_flowpathlengths_in_catchment", "c_delineate_area"])
-    cm.use_impl()
-    from hydrodiy.gis import grid as hygrid
+    hygrid = load_impl()
     rng = ctx.rng
     terms, replays = [], []
     orc_fail = set()
-    stats = {"objects_read_again": 0, "results_read_again": 0, "sessions": 0, "session_steps": 0}
+    stats = {"objects_read_again": 0, "results_read_again": 0, "sessions": 0, "session_steps": 0,
+             "flow_grids_queried_again": 0, "big_grids": 0, "big_calls": 0}
+    phase_s = {}
+    tphase = [time.time()]
+
+    def phase(name):
+        now = time.time()
+        phase_s[name] = round(phase_s.get(name, 0.0) + now - tphase[0], 2)
+        tphase[0] = now
 
     def add(term, replay, sig):
         terms.append(term)
@@ -259,6 +537,51 @@ def run(ctx):
                 "base": {"nrows": nrows, "ncols": ncols, "flowdir": fd},
                 "cls": shape_cls(nrows, ncols)}
 
+    def vec(G):
+        """downstream cell of every cell of the grid SUPPLIED (vectorised oracle), number of cells draining
+        to every cell."""
+        if "vdown" not in G:
+            down, diag = v_down(np.array(G["fd"], dtype=np.int64), G["nrows"], G["ncols"])
+            G["vdown"], G["vdiag"] = down, diag
+            G["indeg"] = np.bincount(down[down >= 0], minlength=G["n"])
+            G["ids"] = np.arange(G["n"], dtype=np.int64)
+        return G["vdown"], G["indeg"], G["ids"]
+
+    def requery(cat, G, extra, sigtag):
+        """After delineations (any inlet list, any buffer size, errors included) the object still has to
+        answer downstream / upstream for the flow grid it was GIVEN: every cell is asked again.  Returns
+        True when it does."""
+        down, indeg, ids = vec(G)
+        stats["flow_grids_queried_again"] += 1
+        ctx.count(("requery", G["cls"], sigtag))
+        cm.mark(dict(G["base"], call="downstream/upstream of every cell, asked again", **extra))
+        got = np.asarray(cat.downstream(ids), dtype=np.int64)
+        w = np.nonzero(got != down)[0] if got.shape == down.shape else np.array([0])
+        if len(w):
+            c = int(w[0])
+            g = int(got[c]) if got.shape == down.shape else None
+            held = [int(v) for v in np.asarray(cat.flowdir.data).ravel()]
+            report("C06/downstream/wrong-after-delineation",
+                   dict(G["base"], call="downstream", cell=c, impl=g, flowdir_held_by_object=held, **extra),
+                   f"downstream({c}) = {g} on an object that delineated areas before ({extra.get('how')}); "
+                   f"on the flow grid it was given the downstream cell of {c} is {int(down[c])} "
+                   f"(code {G['fd'][c]}; the object now holds code {held[c] if c < len(held) else None})",
+                   f"CDown {G['head']} {cm.coq_z(c)} (Some {cm.coq_z(g if g is not None else 0)})",
+                   ("down-requery-bad",))
+            return False
+        ups = np.asarray(cat.upstream(ids), dtype=np.int64)
+        k = v_up_problem(ups, ids, down, indeg)
+        if k is not None:
+            row = [int(v) for v in ups[k]] if ups.ndim == 2 and k < len(ups) else []
+            report("C06/upstream/not-inverse-after-delineation",
+                   dict(G["base"], call="upstream", cell=k, impl=row, **extra),
+                   f"upstream({k}) = {row} on an object that delineated areas before ({extra.get('how')}); "
+                   f"cells draining to it on the flow grid it was given: "
+                   f"{[int(x) for x in np.nonzero(down == k)[0]]}",
+                   f"CUp {G['head']} {cm.coq_z(k)} (Some {cm.coq_zlist(row)})", ("up-requery-bad",))
+            return False
+        return True
+
     def read_area(cat):
         try:
             return [int(x) for x in cat.idxcells_area], [int(x) for x in cat.idxcells_area_filled]
@@ -269,7 +592,7 @@ def run(ctx):
         return (f"CArea {G['head']} {cm.coq_z(rec['outlet'])} {cm.coq_zlist(rec['inl'])} {cm.coq_z(rec['nval'])} "
                 f"{cm.coq_option(area, cm.coq_zlist)}")
 
-    def area_call(cat, G, outlet, inlets, nval, extra=None, emit=True, mark=True):
+    def area_call(cat, G, outlet, inlets, nval, extra=None, emit=True, mark=True, history=None):
         """One delineate_area call on `cat`, judged at once.  nval None = the default buffer size (no case
         term: the model's fuel is the buffer size).  Returns the record of what the object has to hold from
         now on (rec['exp'] is None when nothing is required: error, or outlet on a cycle)."""
@@ -296,7 +619,7 @@ def run(ctx):
         if area is None:
             # an error is legitimate only when the buffer is too small or the outlet lies on a cycle
             need = (len(want) + 1) if want else 0
-            big = nval is None or nval > need + 1
+            big = (PINNED_NVAL["Catchment.delineate_area"] if nval is None else nval) > need + 1
             if not cyc and big and 0 <= outlet < n and all(0 <= x < n for x in inl):
                 problems.append(("C06/area/spurious-error",
                                  f"delineate_area(outlet={outlet}, inlets={inl}, nval={nval}) raised; "
@@ -309,6 +632,9 @@ def run(ctx):
                                  f"delineate_area(outlet={outlet}, inlets={inl}) = {area}, expected {sorted(exp)}"))
             if not set(filled) >= set(area):
                 problems.append(("C06/area/filled-not-superset", f"filled area {filled} does not contain {area}"))
+        if problems and history is not None:
+            # the calls made on this object before: part of the failing input
+            replay["earlier_calls_on_this_object_outlet_inlets_nval"] = history()
         if nval is not None and (emit or problems):
             rec["idx"] = add(area_term(G, rec, area), replay, sig)
             for key, what in problems:
@@ -358,7 +684,7 @@ def run(ctx):
             rec["exp"] = None
         return not problems
 
-    def paths_call(cat, rec, extra=None):
+    def paths_call(cat, rec, extra=None, history=None):
         """compute_flowpathlengths on an object whose area (rec) was found right.  Returns the record of
         what cat.flowpathlengths has to hold."""
         G, outlet = rec["G"], rec["outlet"]
@@ -376,6 +702,8 @@ def run(ctx):
         bad = paths_problem(rec, area, rows)
         if bad is not None:
             prec["ok"] = False
+            if history is not None:
+                replays[i]["earlier_calls_on_this_object_outlet_inlets_nval"] = history()
             fail(i, "C06/flowpath/length" + ("-outlet" if bad[0] == outlet else ""), bad[1])
         return prec
 
@@ -483,13 +811,17 @@ def run(ctx):
         combos = [(inlets, nval) for inlets in inlet_sets for nval in nvals]
         calls, kept = [], []
         rec = None
+
+        def hist():
+            return [c[1:] for c in calls if c[0] == "reused"]
+
         for outlet in outlets:
             pick = rng.randrange(len(combos))
             for k, (inlets, nval) in enumerate(combos):
-                rec = area_call(cat, G, outlet, inlets, nval)
+                rec = area_call(cat, G, outlet, inlets, nval, history=hist)
                 calls.append(["reused", outlet, rec["inlets_arg"], nval])
                 if rec["exp"] is not None and rec["area"] and nval >= 2:
-                    paths_call(cat, rec)
+                    paths_call(cat, rec, history=hist)
                 if k == pick:
                     # same arguments as the call just made (and just recorded by cm.mark)
                     cat2 = hygrid.Catchment(f"fresh{outlet}", g)
@@ -508,6 +840,272 @@ def run(ctx):
         if rec is not None:
             audit_area(cat, rec, {"how": "read twice, other objects read in between", "object": "reused",
                                   "later_calls_object_outlet_inlets_nval": []}, emit=False)
+            # the flow grid of the objects is not an output of delineate_area: whatever the inlet lists and
+            # buffer sizes were (errors included), downstream / upstream still answer for the grid supplied
+            requery(cat, G, {"how": "same object, after all its delineate_area calls", "object": "reused",
+                             "earlier_calls_on_this_object_outlet_inlets_nval": hist()}, "reused")
+            if kept:
+                cat2, rec2, pos = kept[rng.randrange(len(kept))]
+                requery(cat2, G, {"how": "fresh object, after its delineate_area call", "object": calls[pos - 1][0],
+                                  "earlier_calls_on_this_object_outlet_inlets_nval": [calls[pos - 1][1:]]}, "fresh")
+
+    # ------------------------------------------------------------------------------------------------
+    # default buffer sizes, long chains, large catchments (vectorised oracle, no case terms)
+
+    defaults, dproblems = read_defaults(hygrid)
+    ctx.notes["default_buffer_sizes"] = {"read_from_the_signatures": defaults, "pinned": PINNED_NVAL}
+    for pb in dproblems:
+        # fail-closed: the sizes probed below are chosen around these defaults
+        ctx.failure("C06/defaults/unreadable", {"broken": "default buffer size (nval) of an entry point", "what": pb},
+                    f"default buffer size no longer readable from the source: {pb}", nofail=True)
+    for name, d in defaults.items():
+        if d != PINNED_NVAL[name]:
+            print(f"NOTE: property=C06 default nval of {name} is {d} (pinned commit: {PINNED_NVAL[name]}); "
+                  f"chains / catchments around both sizes are probed with default options", flush=True)
+
+    def big_info(rec):
+        fd2 = big_fd(rec)
+        nrows, ncols = fd2.shape
+        n = nrows * ncols
+        down, diag = v_down(fd2.ravel(), nrows, ncols)
+        B = {"rec": rec, "nrows": nrows, "ncols": ncols, "n": n, "fd2": fd2, "down": down, "diag": diag,
+             "indeg": np.bincount(down[down >= 0], minlength=n),
+             "base": {"grid": rec, "flowdir": "harness.props.c06.big_fd(grid).ravel()", "nrows": nrows,
+                      "ncols": ncols},
+             "cls": (rec["kind"], bool(rec.get("transposed")), min(nrows, 3), min(ncols, 3), n.bit_length()),
+             "desc": f"{rec['kind']} grid {nrows}x{ncols}"}
+        g = hygrid.Grid("fd", ncols, nrows, dtype=np.int64)
+        g.data = fd2
+        B["g"] = g
+        root, north, ndiag, _ = v_reach(down, diag)
+        B["root"], B["north"], B["ndiag"] = root, north, ndiag
+        B["steps"], B["acyclic"] = north + ndiag, down[root] < 0
+        return B
+
+    def river_vec(B, start, nval, extra=None):
+        """delineate_river judged by the vectorised oracle.  nval None = default options: the trace has to
+        be complete up to the documented capacity."""
+        name = "delineate_river"
+        down, diag, g = B["down"], B["diag"], B["g"]
+        cap = PINNED_NVAL[name] if nval is None else nval
+        maxlen = max(cap, defaults.get(name, cap)) if nval is None else nval
+        replay = dict(B["base"], call=name, start=start, nval="default" if nval is None else nval, **(extra or {}))
+        cm.mark(replay)
+        stats["big_calls"] += 1
+        tail = f"river from cell {start} ({'default options' if nval is None else f'nval={nval}'}) on a {B['desc']}"
+        try:
+            df = hygrid.delineate_river(g, start) if nval is None else hygrid.delineate_river(g, start, nval=nval)
+        except ValueError as e:
+            ctx.count(("river-vec-error", B["cls"], nval is None))
+            if B["acyclic"][start]:
+                report("C06/river/spurious-error", dict(replay, raised=str(e)),
+                       f"{tail}: raised {str(e)[:120]!r} although the downstream chain is finite "
+                       f"({int(B['steps'][start]) + 1} cells)")
+            return None
+        cells = np.asarray(df["idxcell"].values, dtype=np.int64)
+        dist = np.asarray(df["dist"].values, dtype=np.float64)
+        ctx.count(("river-vec", B["cls"], nval is None, min(len(cells), 3), bool(B["acyclic"][start]),
+                   len(cells) == cap))
+        prob = v_river_problem(down, diag, start, cap, maxlen, cells, dist)
+        if prob is not None:
+            report("C06/river/not-downstream-chain",
+                   dict(replay, impl_rows=len(cells), impl_first_cells=[int(x) for x in cells[:5]],
+                        impl_last_cells=[int(x) for x in cells[-3:]],
+                        chain_cells=int(B["steps"][start]) + 1 if B["acyclic"][start] else "endless (cycle)"),
+                   f"{tail}: {prob}")
+        return df
+
+    def downup_vec(B, cat, cells, extra, after):
+        """downstream / upstream of `cells` on `cat` against the grid supplied."""
+        down, indeg = B["down"], B["indeg"]
+        stats["big_calls"] += 2
+        ctx.count(("downup-vec", B["cls"], after))
+        cm.mark(dict(B["base"], call="downstream/upstream", ncells=len(cells), **extra))
+        got = np.asarray(cat.downstream(cells), dtype=np.int64)
+        w = np.nonzero(got != down[cells])[0] if got.shape == cells.shape else np.array([0])
+        if len(w):
+            c = int(cells[w[0]])
+            held = int(np.asarray(cat.flowdir.data).ravel()[c])
+            report("C06/downstream/wrong" + ("-after-delineation" if after else ""),
+                   dict(B["base"], call="downstream", cell=c, impl=int(got[w[0]]), **extra),
+                   f"downstream({c}) = {int(got[w[0]])} on a {B['desc']}"
+                   + (f" on an object that delineated areas before; the object now holds code {held} for this "
+                      f"cell" if after else "")
+                   + f"; expected {int(down[c])} (code supplied: {int(B['fd2'].ravel()[c])})")
+            return False
+        ups = np.asarray(cat.upstream(cells), dtype=np.int64)
+        k = v_up_problem(ups, cells, down, indeg)
+        if k is not None:
+            c = int(cells[k])
+            row = [int(v) for v in ups[k]] if ups.ndim == 2 and k < len(ups) else []
+            report("C06/upstream/not-inverse" + ("-after-delineation" if after else "-of-downstream"),
+                   dict(B["base"], call="upstream", cell=c, impl=row, **extra),
+                   f"upstream({c}) = {row} on a {B['desc']}"
+                   + (" on an object that delineated areas before" if after else "")
+                   + f"; cells draining to it: {[int(x) for x in np.nonzero(down == c)[0]]}")
+            return False
+        return True
+
+    def area_vec(B, cat, outlet, inlets, nval, history, want=None, paths_budget=0):
+        """delineate_area judged by the vectorised oracle; then compute_flowpathlengths when cheap.
+        Returns the number of cells expected (None when nothing was required or something was reported)."""
+        name = "Catchment.delineate_area"
+        n, down, diag = B["n"], B["down"], B["diag"]
+        inl = [int(x) for x in inlets] if inlets is not None else []
+        if want is None:
+            want = v_area(down, diag, outlet, inl)
+        mask, cyc, north, ndiag = want
+        A = int(mask.sum())
+        need = A if A > 1 else 0
+        cap = PINNED_NVAL[name] if nval is None else nval
+        replay = dict(B["base"], call="delineate_area", outlet=outlet, inlets=inl,
+                      nval="default" if nval is None else nval,
+                      earlier_calls_on_this_object_outlet_inlets_nval=list(history))
+        cm.mark(replay)
+        stats["big_calls"] += 1
+        tail = (f"delineate_area(outlet={outlet}, inlets={inl}, "
+                f"{'default options' if nval is None else f'nval={nval}'}) on a {B['desc']}"
+                + (f" (after {len(history)} earlier call(s) on the same object)" if history else ""))
+        try:
+            if nval is None:
+                cat.delineate_area(outlet, list(inl) if inlets is not None else None)
+            else:
+                cat.delineate_area(outlet, list(inl) if inlets is not None else None, nval=nval)
+            area = np.asarray(cat.idxcells_area, dtype=np.int64)
+            filled = np.asarray(cat.idxcells_area_filled, dtype=np.int64)
+        except ValueError as e:
+            area, err = None, str(e)
+        history.append([outlet, inl if inlets is not None else None, "default" if nval is None else nval])
+        ctx.count(("area-vec", B["cls"], area is None, len(inl) > 0, len(set(inl)) < len(inl), cyc, min(A, 3),
+                   nval is None, bool(len(history) > 1)))
+        if area is None:
+            if not cyc and cap > need + 1:
+                report("C06/area/spurious-error", dict(replay, raised=err),
+                       f"{tail} raised {err[:120]!r}; the catchment has {need} cells")
+            return None
+        if cyc:
+            return None
+        ok = True
+        if need == 0:
+            if len(area):
+                ok = False
+                prob = f"{len(area)} cells (first: {[int(x) for x in area[:5]]}), expected none: nothing drains to the outlet"
+        else:
+            inside = (area >= 0) & (area < n)
+            got = np.zeros(n, dtype=bool)
+            got[area[inside]] = True
+            if not inside.all() or len(area) != A or not np.array_equal(got, mask):
+                ok = False
+                miss = np.nonzero(mask & ~got)[0]
+                extra_ = np.nonzero(got & ~mask)[0]
+                prob = (f"{len(area)} cells ({int(got.sum())} distinct), expected {A}; missing e.g. "
+                        f"{[int(x) for x in miss[:5]]}, not draining to the outlet e.g. {[int(x) for x in extra_[:5]]}")
+        if not ok:
+            report("C06/area/not-upstream-reachability", dict(replay, impl_ncells=len(area)), f"{tail} = {prob}")
+            return None
+        if need and not np.isin(area, filled).all():
+            report("C06/area/filled-not-superset", dict(replay, impl_ncells=len(area)),
+                   f"{tail}: the filled area ({len(filled)} cells) does not contain the area ({len(area)} cells)")
+            return None
+        # flow path lengths (the kernel walks every chain: cost = sum of the chain lengths)
+        if need and int((north + ndiag)[mask].sum()) <= paths_budget:
+            stats["big_calls"] += 1
+            cm.mark(dict(replay, call="compute_flowpathlengths"))
+            cat.compute_flowpathlengths()
+            fp = np.asarray(cat.flowpathlengths.values, dtype=np.float64)
+            wantlen = north[area] + ndiag[area] * SQRT2
+            ctx.count(("paths-vec", B["cls"], min(A, 3), bool(ndiag[area].any())))
+            if fp.shape != (len(area), 3):
+                bad = 0
+            else:
+                w = np.nonzero((fp[:, 0] != area) | ~(np.abs(fp[:, 2] - wantlen) <= 1e-9 * np.maximum(1.0, wantlen)))[0]
+                bad = int(w[0]) if len(w) else None
+            if bad is not None:
+                x = int(area[bad])
+                report("C06/flowpath/length" + ("-outlet" if x == outlet else ""),
+                       dict(replay, call="compute_flowpathlengths", cell=x,
+                            impl=[float(v) for v in fp[bad]] if fp.ndim == 2 and bad < len(fp) else None),
+                       f"flow path length of cell {x} to outlet {outlet} = "
+                       f"{float(fp[bad, 2]) if fp.ndim == 2 and bad < len(fp) else None} (start cell reported: "
+                       f"{fp[bad, 0] if fp.ndim == 2 and bad < len(fp) else None}), expected {float(wantlen[bad])} "
+                       f"({int(north[x])} orthogonal + {int(ndiag[x])} diagonal steps) after {tail}")
+                return None
+        return need
+
+    def do_big(rec, paths_budget, sample=120000):
+        """One large grid: rivers and catchments with DEFAULT options and with buffer sizes around what is
+        needed, inlet lists with repeated entries, then everything asked again from the same object."""
+        B = big_info(rec)
+        n, down, diag = B["n"], B["down"], B["diag"]
+        stats["big_grids"] += 1
+        cat = hygrid.Catchment("big", B["g"])
+        name = "delineate_river"
+        # the longest finite chain of the grid
+        start = int(np.argmax(np.where(B["acyclic"], B["steps"], -1)))
+        L, end = int(B["steps"][start]) + 1, int(B["root"][start])
+        if not B["acyclic"][start]:
+            start = None
+        cells = (np.arange(n, dtype=np.int64) if n <= sample else
+                 np.unique(np.concatenate([np.arange(0, min(n, 1000)), np.arange(max(0, n - 1000), n),
+                                           np.random.default_rng(rng.randrange(2 ** 31)).integers(0, n, sample)])))
+        cells = cells.astype(np.int64)
+        downup_vec(B, cat, cells, {}, after=False)
+        if start is not None:
+            river_vec(B, start, None)
+            for nval in sorted(set(rng.sample([L, L + 1, max(1, L - 1), L + 7, max(1, L // 2)], 2))):
+                river_vec(B, start, nval)
+            if L >= min(PINNED_NVAL[name], defaults.get(name, PINNED_NVAL[name])):
+                river_vec(B, start, L + 2)      # a buffer larger than the default one
+            other = int(rng.randrange(n))
+            river_vec(B, other, None)
+        cyc_cells = np.nonzero(~B["acyclic"])[0]
+        if len(cyc_cells):
+            # a chain that runs into a cycle: an error or a bounded trace
+            c = int(cyc_cells[rng.randrange(len(cyc_cells))])
+            river_vec(B, c, None)
+            river_vec(B, c, rng.choice([1, 7, n + 3]))
+        history = []
+        if start is None:
+            outlet = int(cyc_cells[rng.randrange(len(cyc_cells))])
+            area_vec(B, cat, outlet, None, None, history)
+            area_vec(B, cat, outlet, None, min(n, 5000), history)
+        else:
+            outlet = end
+            # (a) everything that drains to the end of the longest chain, default options (the outlet is the
+            #     end of its chain: the chains computed without outlet are the ones needed)
+            full = (B["root"] == end, False, B["north"], B["ndiag"])
+            A = area_vec(B, cat, outlet, None, None, history, want=full, paths_budget=paths_budget)
+            # (b) inlets on the main chain, written with repeated entries; the part below them is short
+            #     enough for the flow path lengths
+            K = rng.choice([1, 2, 50, 1500, 2999])
+            c = start
+            chain = np.empty(L, dtype=np.int64)
+            dlist = down.tolist()
+            for j in range(L):
+                chain[j] = c
+                c = dlist[c]
+            K = min(K, L - 1)
+            cut = int(chain[L - 1 - K])
+            inl = [cut, cut] + ([int(rng.randrange(n))] if rng.random() < 0.5 else []) + ([cut] if rng.random() < 0.3 else [])
+            rng.shuffle(inl)
+            area_vec(B, cat, outlet, inl, None, history, paths_budget=paths_budget)
+            # the object is asked again: its flow grid is the one supplied
+            downup_vec(B, cat, np.unique(np.concatenate([cells, np.array(inl, dtype=np.int64)])),
+                       {"earlier_calls_on_this_object_outlet_inlets_nval": list(history)}, after=True)
+            # (c) the whole catchment again from the same object, buffer sizes around what is needed
+            need = int(full[0].sum())
+            need = need if need > 1 else 0
+            for nval in sorted(set(rng.sample([need + 2, need + 1, max(1, need), need + 3, None], 2)),
+                               key=lambda v: -1 if v is None else v):
+                area_vec(B, cat, outlet, None, nval, history, want=full)
+            if need + 2 >= min(PINNED_NVAL["Catchment.delineate_area"],
+                               defaults.get("Catchment.delineate_area", 10 ** 9)):
+                area_vec(B, cat, outlet, None, need + 3, history, want=full)   # larger than the default buffer
+            # (d) a small catchment high up the main chain, inlets in any order
+            o2 = int(chain[min(L - 1, rng.choice([0, 1, 40, 2500]))])
+            area_vec(B, cat, o2, inlet_seq(rng, n, kmax=3, p_repeat=0.5), None, history, paths_budget=paths_budget)
+            river_vec(B, start, None, {"after_calls_on_a_catchment_object_of_the_same_grid": list(history)})
+        return B
 
     def do_session(sess):
         """See gen_session.  Every operation is judged when it is made, as a single call would be; then
@@ -541,6 +1139,11 @@ def run(ctx):
             for h in held:
                 if h["at"] != step and h["ok"]:
                     judge_held(h, step)
+            # the flow grid of every live object: downstream / upstream of every cell asked again
+            for slot, o in objs.items():
+                if o.get("fdok", True):
+                    o["fdok"] = requery(o["cat"], Gs[o["gi"]],
+                                        sofar(step, how="session", object=f"slot {slot}"), "session")
 
         def judge_held(h, step):
             """h: a result of downstream / upstream / delineate_river, judged when it is returned
@@ -639,18 +1242,80 @@ def run(ctx):
                         pass
             audit(step, final=(step == len(ops) - 1))
 
+    phase("proofs, kernels tie, build")
+    # ---- large grids: default options, long chains, buffer sizes around the caps
+    thorough = ctx.thorough
+    budget = ctx.scale(2 * 10 ** 7, 2 * 10 ** 8)
+
+    def line(L, **kw):
+        if rng.random() < 0.5:
+            return dict({"kind": "line", "nrows": 1, "ncols": L, "code": rng.choice([1, 16]),
+                         "end_sink": rng.random() < 0.5}, **kw)
+        return dict({"kind": "line", "nrows": L, "ncols": 1, "code": rng.choice([4, 64]),
+                     "end_sink": rng.random() < 0.5}, **kw)
+
+    recipes = []
+    big_caps = sorted(set(PINNED_NVAL.values()) | set(defaults.values()))
+    for cap in [2 ** 15, 2 ** 16, 100000]:
+        for d in ([-2, -1, 0, 1, 2] if thorough else [rng.choice([-2, -1, 0, 1, 2])]):
+            recipes.append(line(cap + d))
+    for _ in range(ctx.scale(1, 4)):
+        recipes.append(line(rng.randint(100001, 400000)))
+    for cap in big_caps:
+        if 3 <= cap <= 2500000:
+            # just below / above the default buffer sizes (the pinned ones and the ones of the code under check)
+            for d in ([-2, -1, 0, 1, 2] if thorough else [rng.choice([-2, -1, 0]), rng.choice([1, 2])]):
+                recipes.append(line(cap + d))
+    for _ in range(ctx.scale(1, 3)):
+        recipes.append({"kind": "serpentine", "nrows": rng.randint(320, 400), "ncols": rng.randint(320, 420),
+                        "diagonal_turns": rng.random() < 0.5, "end_sink": rng.random() < 0.5,
+                        "transposed": rng.random() < 0.5})
+        recipes.append({"kind": "zigzag", "nrows": 2, "ncols": rng.randint(100001, 140000),
+                        "transposed": rng.random() < 0.5})
+        recipes.append({"kind": "converge", "nrows": rng.randint(330, 400), "ncols": rng.randint(330, 400),
+                        "diagonal": rng.random() < 0.5, "end_sink": rng.random() < 0.5,
+                        "transposed": rng.random() < 0.5})
+        recipes.append({"kind": "forest", "nrows": rng.randint(250, 400), "ncols": rng.randint(250, 400),
+                        "seed": rng.randrange(2 ** 31)})
+        recipes.append({"kind": "ring", "nrows": rng.randint(2, 200), "ncols": rng.randint(2, 300)})
+    if thorough:
+        recipes += [{"kind": "serpentine", "nrows": 1000, "ncols": 1001, "diagonal_turns": True, "end_sink": True,
+                     "transposed": False},
+                    {"kind": "zigzag", "nrows": 2, "ncols": 1000001, "transposed": True},
+                    {"kind": "converge", "nrows": 1001, "ncols": 1000, "diagonal": True, "end_sink": False,
+                     "transposed": False}]
+    # small and medium sizes of the same families (cheap; the caps of a changed tree may be anywhere)
+    for _ in range(ctx.scale(12, 60)):
+        k = rng.choice(["line", "serpentine", "zigzag", "converge", "forest", "ring"])
+        if k == "line":
+            recipes.append(line(rng.choice([1, 2, 3, rng.randint(4, 300), rng.randint(300, 20000)])))
+        elif k == "zigzag":
+            recipes.append({"kind": k, "nrows": 2, "ncols": rng.randint(1, 5000), "transposed": rng.random() < 0.5})
+        else:
+            recipes.append({"kind": k, "nrows": rng.randint(2, 90), "ncols": rng.randint(3, 90),
+                            "diagonal_turns": rng.random() < 0.5, "diagonal": rng.random() < 0.5,
+                            "end_sink": rng.random() < 0.5, "transposed": rng.random() < 0.5,
+                            "seed": rng.randrange(2 ** 31)})
+    for rec in recipes:
+        do_big(rec, budget)
+    ctx.notes["big_grid_recipes"] = len(recipes)
+    phase("large grids / default options")
+
     # ---- exhaustive tiny grids
     shapes = [(1, 1), (1, 2), (2, 1), (1, 3), (3, 1)]
     for (nrows, ncols) in shapes:
         n = nrows * ncols
         for fd in itertools.product(VALUES, repeat=n):
             subsets = [s for r in range(n + 1) for s in itertools.combinations(range(n), r)]
+            # the same sets written with cells listed more than once / in another order
+            subsets += [tuple(inlet_seq(rng, n, p_repeat=0.8)) for _ in range(2)]
             do_grid(nrows, ncols, list(fd), range(n), subsets, [n + 2], full=True)
     for (nrows, ncols) in [(2, 2), (1, 4), (4, 1)]:
         for _ in range(ctx.scale(150, 1500)):
             fd = [rng.choice(VALUES) for _ in range(4)]
-            subsets = [(), tuple(rng.sample(range(4), rng.randint(1, 2)))]
+            subsets = [(), tuple(rng.sample(range(4), rng.randint(1, 2))), tuple(inlet_seq(rng, 4, p_repeat=0.7))]
             do_grid(nrows, ncols, fd, range(4), subsets, [rng.choice([1, 2, 3, 4, 6])], full=True)
+    phase("exhaustive and sampled tiny grids")
     # ---- random grids
     S = ctx.scale(8, 20)
     for it in range(ctx.scale(120, 1200)):
@@ -661,6 +1326,9 @@ def run(ctx):
         # outlets: prefer cells with many upstream cells
         outlets = good_outlets(rng, fd, nrows, ncols)
         inlet_sets = [None, tuple(rng.sample(range(n), min(n, rng.randint(1, 3))))]
+        # a list with repeated entries / in any order, preferably of cells that drain to the first outlets
+        ups = sorted(o_area(fd, nrows, ncols, outlets[0], [])[0]) if rng.random() < 0.7 else None
+        inlet_sets.append(tuple(inlet_seq(rng, n, pool=ups, kmax=4, p_repeat=0.6)))
         nvals = [n + 2, rng.choice([1, 2, 3, max(2, n // 2), n, n + 1])]
         do_grid(nrows, ncols, fd, outlets, inlet_sets, nvals, full=(it % 3 == 0))
         # rivers
@@ -669,11 +1337,19 @@ def run(ctx):
             nval = rng.choice([1, 2, 3, n, n + 5])
             geo = rng.choice([(0., 0., 1.), (10.5, -3.25, 0.25), (rng.uniform(-50, 50), rng.uniform(-50, 50), 10 ** rng.uniform(-2, 2))])
             river_call(nrows, ncols, fd, geo, start, nval)
+        if it % 3 == 1:
+            # default options on the same grid (chains that run into a cycle end in a bounded trace)
+            river_vec(big_info({"kind": "given", "nrows": nrows, "ncols": ncols, "flowdir": fd}),
+                      rng.randrange(n), None)
+    phase("random grids")
     # ---- sessions: several objects / grids alive at once, everything read again after every step
     for it in range(ctx.scale(150, 1500)):
         do_session(gen_session(rng, S))
 
+    phase("sessions")
     bad, nshards, failed = cm.run_case_files(PID, HEADER, "ccase", "c_ok", terms, shard=3000, max_bytes=400000)
+    phase("correspondence case files")
+    ctx.notes["phase_s"] = phase_s
     ctx.notes["correspondence_cases"] = len(terms)
     ctx.notes["correspondence_mismatches"] = len(bad)
     ctx.notes["read_again"] = stats
